@@ -17,7 +17,7 @@ from fractions import Fraction
 import numpy as np
 
 from harness import pipeline
-from harness.props.c01 import nearest_sat
+from harness.props.c01 import nearest_sat, frac_of_float
 
 RULE = ("sources: random volumes (shapes 3..20, 1..3 channels, 5 data types) converted to 1..3 scales with "
         "target chunk sizes 2/4/8 under random storage options; destinations: other encoding, layout, gzip, "
@@ -71,7 +71,12 @@ def make_source(R, rng, d, i, force_kind=None):
     nch = rng.choice([1, 1, 2, 3])
     n = int(np.prod(shape)) * nch
     if dt == "float32":
-        vals = np.array([rng.choice([0.5, -1.5, 3.25, 1e6, 70000.7]) if rng.random() < 0.3 else rng.uniform(-10, 300)
+        pool = [0.5, -1.5, 3.25, 1e6, 70000.7]
+        if i % 2 == 0:
+            # values at and above the top of the integer target ranges (saturation in convert-chunks)
+            pool += [4294967040.0, 2.0 ** 32, 1e12, 2.0 ** 63, 2.0 ** 64, 3e19, float("inf"), -1e12, 65535.5, 65536.0]
+            R.count("source:float32-huge-values")
+        vals = np.array([rng.choice(pool) if rng.random() < 0.3 else rng.uniform(-10, 300)
                          for _ in range(n)], dtype=dt)
     else:
         hi = min(int(np.iinfo(dt).max), 2 ** 52)
@@ -117,6 +122,8 @@ def make_source_direct(R, rng, d, i, force=None):
     so that it is complete whatever the package's writer does; with an object on a zero background."""
     out = os.path.join(d, "src")
     dt = rng.choice(NG)
+    if force and force.get("dtype"):
+        dt = force["dtype"]
     nch = rng.choice([1, 1, 2])
     scales = []
     size = [rng.randrange(4, 21) for _ in range(3)]
@@ -131,7 +138,10 @@ def make_source_direct(R, rng, d, i, force=None):
         key = f"{2 ** k}mm"
         scales.append({"key": key, "size": sz, "chunk_sizes": [cs], "encoding": "raw",
                        "resolution": [10 ** 6 * 2 ** k] * 3, "voxel_offset": [0, 0, 0]})
-        if dt == "float32":
+        if dt == "float32" and force and force.get("huge"):
+            pool = [4294967040.0, 2.0 ** 32, 1e12, 2.0 ** 63, 2.0 ** 64, 3e19, float("inf"), 65535.5, 7.5, 255.5]
+            a = np.array([rng.choice(pool) for _ in range(nch * sz[0] * sz[1] * sz[2])], dtype=dt)
+        elif dt == "float32":
             a = np.array([rng.uniform(1, 300) for _ in range(nch * sz[0] * sz[1] * sz[2])], dtype=dt)
         else:
             hi = min(int(np.iinfo(dt).max), 2 ** 52)
@@ -208,6 +218,15 @@ def run(R):
         src_dir, info, src_acc, src_kind, src_scales = make_source_direct(R, rng, d, w, force)
         _convert(R, rng, d, 0, src_dir, info, src_acc, src_kind, src_scales, force)
         R.count("dest:sharded-with-unused-minishard-slots")
+    # float32 sources whose values reach and exceed the top of the integer target ranges
+    for w, dst_dtype in enumerate(["uint32", "uint64", "uint16"]):
+        d = os.path.join(R.tmp, f"top{w}")
+        os.makedirs(d)
+        force = {"size": (5, 4, 6), "chunk": (4, 4, 4), "dtype": "float32", "huge": True,
+                 "dst_kind": rng.choice(["deep-gz", "flat"]), "dst_dtype": dst_dtype}
+        src_dir, info, src_acc, src_kind, src_scales = make_source_direct(R, rng, d, w, force)
+        _convert(R, rng, d, 0, src_dir, info, src_acc, src_kind, src_scales, force)
+        R.count("dest:float32-top-of-range->" + dst_dtype)
     n = 24 if R.tier == "quick" else 500
     for i in range(n):
         d = os.path.join(R.tmp, f"c{i}")
@@ -217,6 +236,7 @@ def run(R):
             for j in range(2):
                 _convert(R, rng, d, j, src_dir, info, src_acc, src_kind, src_scales)
             _damaged_source(R, rng, d, src_dir, info, src_acc, src_kind)
+            _copy_info_into_populated(R, rng, d, src_dir, src_kind)
             continue
         src = make_source(R, rng, d, i)
         if src is None:
@@ -234,6 +254,28 @@ def run(R):
             _convert(R, rng, d, j, src_dir, info, src_acc, src_kind, src_scales)
         if i % 2 == 0:
             _damaged_source(R, rng, d, src_dir, info, src_acc, src_kind)
+        else:
+            _copy_info_into_populated(R, rng, d, src_dir, src_kind)
+
+
+def _copy_info_into_populated(R, rng, d, src_dir, src_kind):
+    """convert-chunks --copy-info into a destination that already carries an info (left by the conversions
+    above, in general with another data type / encoding): the command has to refuse (the info is stored
+    without permission to overwrite) and leave the destination as it is."""
+    dst = os.path.join(d, "dst0")
+    if src_kind == "sharded" or not os.path.exists(os.path.join(dst, "info")):
+        return
+    before = tree_hash(dst)
+    rc, so, se = pipeline.run_script("convert_chunks", [src_dir, dst, "--copy-info"], inprocess=True)
+    case = {"second_run": "--copy-info into a destination that already has an info", "source": src_kind}
+    R.case(case, nontrivial=True)
+    R.count("copy-info-into-populated:" + ("refused" if rc != 0 else "rc0"))
+    if rc == 0:
+        R.violation("convert-chunks --copy-info exited 0 on a destination that already had an info "
+                    "(chunks re-encoded under a description that is not the stored one)", case,
+                    {"destination_changed": tree_hash(dst) != before})
+    elif tree_hash(dst) != before:
+        R.violation("a refused convert-chunks --copy-info modified the destination", case, {})
 
 
 def _damaged_source(R, rng, d, src_dir, info, src_acc, src_kind):
@@ -274,15 +316,18 @@ def _convert(R, rng, d, j, src_dir, info, src_acc, src_kind, src_scales, force=N
     _convert.counter = getattr(_convert, "counter", 0) + 1
     dst_kind = kinds[_convert.counter % len(kinds)]
     if force:
-        dst_kind = "sharded"
-    copy_info = rng.random() < 0.3 and not dst_kind.startswith("sharded")
+        dst_kind = force.get("dst_kind", "sharded")
+    copy_info = rng.random() < 0.3 and not dst_kind.startswith("sharded") and not force
     R.count(f"dest-kind:{dst_kind}")
     src_dt = info["data_type"]
     dinfo = json.loads(json.dumps(info))
     if not copy_info:
         wider = {"uint8": ["uint8", "uint16", "uint32", "uint64", "float32"], "uint16": ["uint16", "uint32", "uint64", "float32", "uint8"],
-                 "uint32": ["uint32", "uint64", "uint16"], "uint64": ["uint64", "uint32"], "float32": ["float32", "uint16", "uint8"]}
+                 "uint32": ["uint32", "uint64", "uint16"], "uint64": ["uint64", "uint32"],
+                 "float32": ["float32", "uint16", "uint8", "uint32", "uint64", "uint32"]}
         dinfo["data_type"] = rng.choice(wider[src_dt][:3] + wider[src_dt])
+        if force and force.get("dst_dtype"):
+            dinfo["data_type"] = force["dst_dtype"]
         for s in dinfo["scales"]:
             s.pop("sharding", None)
             s.pop("compressed_segmentation_block_size", None)
@@ -300,7 +345,7 @@ def _convert(R, rng, d, j, src_dir, info, src_acc, src_kind, src_scales, force=N
                     s["sharding"] = {"@type": "neuroglancer_uint64_sharded_v1", "minishard_bits": rng.choice([0, 1, 2, 3]),
                                      "shard_bits": rng.choice([0, 1, 2]), "preshift_bits": rng.choice([0, 1]),
                                      "hash": "identity", "minishard_index_encoding": enc, "data_encoding": enc}
-                    if force:
+                    if force and force.get("sharding"):
                         m_, s_, p_ = force["sharding"]
                         s["sharding"].update(minishard_bits=m_, shard_bits=s_, preshift_bits=p_)
         if not dst_kind.startswith("sharded"):
@@ -388,7 +433,7 @@ def _convert(R, rng, d, j, src_dir, info, src_acc, src_kind, src_scales, force=N
             R.violation("destination scale has another shape", case, {"scale": key})
             continue
         if ddt.kind in "ui":
-            conv = np.vectorize(lambda v: nearest_sat(Fraction(int(v)) if a.dtype.kind in "ui" else Fraction(float(v)), ddt),
+            conv = np.vectorize(lambda v: nearest_sat(Fraction(int(v)) if a.dtype.kind in "ui" else frac_of_float(v), ddt),
                                 otypes=[object])
             want = conv(a)
             bad = np.argwhere(b.astype(object) != want)
